@@ -48,6 +48,7 @@ Fixpoint closed (t : uexpr) : bool :=
   | UNeg _ | URlike _ _ | UStartsWith _ _ | UEndsWith _ _ | USubstr _ _ _ | UWhen _ | UCast _ _
   | UGetItemLit _ _ | UGetItemCol _ _ => true
   | UAlias a _ => closed a
+  | UExpr e => bclosed e
   | _ => false
   end.
 
@@ -71,9 +72,10 @@ Fixpoint in_class (c : cfg) (t : uexpr) : bool :=
   | UBin o a b =>
       in_class c a && in_class c b &&
       (if is_logic o then andor_ok a && andor_ok b
-       else (bf_opwrap (c_fwd c o) || closed a) && (bf_opwrap (c_fwd c o) || closed b))
-  | URBin o _ b => has_reflected o && in_class c b && (if is_logic o then andor_ok b else closed b)
-  | UNse a b => in_class c a && in_class c b && (bf_opwrap (c_nse c) || closed a) && (bf_opwrap (c_nse c) || closed b)
+       else (is_wall (bf_opwrap (c_fwd c o)) || closed a) && (is_wall (bf_opwrap (c_fwd c o)) || closed b))
+  | URBin o _ b => has_reflected o && in_class c b &&
+                   (if is_logic o then andor_ok b else is_wall (bf_opwrap (c_rev c o)) || closed b)
+  | UNse a b => in_class c a && in_class c b && (is_wall (bf_opwrap (c_nse c)) || closed a) && (is_wall (bf_opwrap (c_nse c)) || closed b)
   | UNeg a | UNot a => in_class c a
   | UIsNull a | UIsNotNull a | UIsin a _ | ULike a _ | UILike a _ => in_class c a && (c_pred_opwrap c || closed a)
   | UBetween a lo hi => in_class c a && in_class c lo && in_class c hi
@@ -85,6 +87,7 @@ Fixpoint in_class (c : cfg) (t : uexpr) : bool :=
   | UEndsWith a b => in_class c a && in_class c b && String.eqb (c_endswith_fn c) "ENDS_WITH"
   | USubstr a p l => in_class c a && in_class c p && in_class c l && (c_substr_zero_as_one c || negb (is_zero_start p))
   | UWhen bs => in_classb c bs
+  | UExpr e => safe 1 false e && known e && (bclosed e || is_open e)
   | UGetItemLit a _ => is_col a
   | UGetItemCol a i => is_col a && in_class c i && Z.eqb (getitem_off c (build c i)) 1 && closed i
   end
@@ -160,7 +163,7 @@ Proof. destruct b; try reflexivity. cbn [build]. apply pylit_true. Qed.
 
 (** ---- BUILD_SHAPE: stripped of its parentheses, the built tree is the intended tree ------------- *)
 Lemma strip_wrap w e : strip (wrap w e) = strip e.
-Proof. unfold wrap. destruct (w && is_open e); reflexivity. Qed.
+Proof. unfold wrap. destruct w; try destruct (is_open e); try destruct (is_open_conn e); reflexivity. Qed.
 
 Lemma strip_mkbin bf x y : strip (mkbin bf x y) =
   if bf_self_left bf then SBin (bf_cls bf) (strip x) (strip y) else SBin (bf_cls bf) (strip y) (strip x).
